@@ -549,7 +549,55 @@ Definition ms_items (pl : list ((name * name) * name)) (its : list item) : list 
                                                             (map (ms_act pl ctx) (m_body x))] end) (c_meths k))
                       (c_alias k))]
     end) its.
+(* cca2e92: one transaction per method that moves = its removal, the new function and every redirected
+   access outside the method.  processing._schedule_rewrites takes the transactions in source order and
+   discards one that overlaps an already scheduled one AS A WHOLE: a planned method whose body holds an
+   access of an already scheduled method (that edit lies in the range being removed), or which an
+   already scheduled method accesses, stays in its class with its accesses (a later pass may move it). *)
+Definition act_key (pl : list ((name * name) * name)) (ctx : option name) (a : act) : option (name * name) :=
+  match attr_of a with
+  | Some (r, m) =>
+      match r with
+      | RCls c | RNew c => match plan_find pl c m with Some _ => Some (c, m) | None => None end
+      | RSelf => match ctx with
+                 | Some k => match plan_find pl k m with Some _ => Some (k, m) | None => None end
+                 | None => None
+                 end
+      | _ => None
+      end
+  | None => None
+  end.
+Definition pair_eqb (p q : name * name) : bool := Nat.eqb (fst p) (fst q) && Nat.eqb (snd p) (snd q).
+(* the other planned methods that the body of x (a method of class k) accesses *)
+Definition body_keys (pl : list ((name * name) * name)) (k : name) (x : meth) : list (name * name) :=
+  flat_map (fun a => match act_key pl (Some k) a with
+                     | Some p => if pair_eqb p (k, m_name x) then [] else [p]
+                     | None => [] end) (m_body x).
+Definition cand := ((name * name) * name * list (name * name))%type.
+Definition ms_cands (M : module) (pl : list ((name * name) * name)) : list cand :=
+  flat_map (fun k => flat_map (fun x => match plan_find pl (c_name k) (m_name x) with
+                                        | Some n => [((c_name k, m_name x), n, body_keys pl (c_name k) x)]
+                                        | None => [] end) (c_meths k)) (classes M).
+Definition conflicts (c : cand) (sch : list cand) : bool :=
+  let '(key, _, B) := c in
+  existsb (fun s : cand => let '(key', _, B') := s in pair_mem key B' || pair_mem key' B) sch.
+Fixpoint sched_go (cands sch : list cand) : list cand :=
+  match cands with
+  | [] => sch
+  | c :: tl => sched_go tl (if conflicts c sch then sch else sch ++ [c])
+  end.
+Definition ms_sched (M : module) (pl : list ((name * name) * name)) : list ((name * name) * name) :=
+  map (fun c : cand => let '(key, n, _) := c in (key, n)) (sched_go (ms_cands M pl) []).
+(* the methods that one pass really moves *)
+Definition ms_moved (M : module) : list ((name * name) * name) := ms_sched M (ms_plan M).
 Definition ms_pass (M : module) : module :=
+  let pl := ms_plan M in
+  if nodup_names (map snd pl)
+  then let pl' := ms_sched M pl in
+       mkMod (ms_items pl' (m_items M)) (m_vars M) (m_stores M) (map (ms_act pl' None) (m_main M))
+  else M.
+(* before cca2e92: every access was a transaction of its own and all planned methods moved *)
+Definition ms_pass_old (M : module) : module :=
   let pl := ms_plan M in
   if nodup_names (map snd pl)
   then mkMod (ms_items pl (m_items M)) (m_vars M) (m_stores M) (map (ms_act pl None) (m_main M))
